@@ -42,6 +42,60 @@ def random_programs(rng_seed, n, depth=2, stmts=6, feats=FEATS):
     return out
 
 
+def loop_programs():
+    """every loop form x what happens in an iteration {nothing, Fahre fort in some iterations, Verlasse in one, both} x
+    what is observed afterwards in the same and in later iterations (counter, index, element) — also for a loop nested
+    in another one of each form, where the jump belongs to the inner loop only"""
+    I = lambda n: ("int", n)
+    V = lambda n: ("var", n)
+    eq = lambda a, b: ("bin", "eq", a, b)
+    sep = ("print", ("text", [0x20]))
+    nl = ("println", ("text", []))
+    lst = ("list", "Z", [I(10), I(20), I(30), I(40), I(50)])
+    txt = ("text", [0x61, 0xE4, 0x20AC, 0x1F600, 0x7A])
+
+    def jumps(test):
+        """test(n) -> condition 'this is iteration n' (1-based)"""
+        return {"none": [],
+                "continue-2": [("if", test(2), [("continue",)], [])],
+                "continue-2-4": [("if", test(2), [("continue",)], []), ("if", test(4), [("continue",)], [])],
+                "break-3": [("if", test(3), [("break",)], [])],
+                "continue-1-break-4": [("if", test(1), [("continue",)], []), ("if", test(4), [("break",)], [])]}
+
+    def forms(tag, inner_stmts):
+        """(label, statements) for one loop of each form whose body is: count; jump?; observe; inner_stmts"""
+        out = []
+        cnt = "n" + tag
+        count = [("compound", "plus", V(cnt), I(1))]
+        for jn, j in jumps(lambda n: eq(V(cnt), I(n))).items():
+            obs = [("print", V(cnt)), sep]
+            body = count + j + obs + inner_stmts
+            out.append(("while:" + jn, [("decl", "Z", cnt, I(0)), ("while", ("bin", "lt", V(cnt), I(5)), body)]))
+            out.append(("dowhile:" + jn, [("decl", "Z", cnt, I(0)), ("dowhile", body, ("bin", "lt", V(cnt), I(5)))]))
+            out.append(("repeat:" + jn, [("decl", "Z", cnt, I(0)), ("repeat", I(5), body)]))
+            i = "i" + tag
+            out.append(("for-up:" + jn, [("decl", "Z", cnt, I(0)), ("for", i, "Z", I(1), I(5), None, count + j + [("print", V(i)), sep] + obs + inner_stmts)]))
+            out.append(("for-down-step:" + jn, [("decl", "Z", cnt, I(0)), ("for", i, "Z", I(9), I(1), I(-2), count + j + [("print", V(i)), sep] + obs + inner_stmts)]))
+            x, k = "x" + tag, "k" + tag
+            out.append(("foreach-index:" + jn, [("decl", "Z", cnt, I(0)), ("foreach", "Z", x, k, lst,
+                        count + j + [("print", V(k)), sep, ("print", V(x)), sep] + inner_stmts)]))
+            out.append(("foreach:" + jn, [("decl", "Z", cnt, I(0)), ("foreach", "Z", x, None, lst, count + j + [("print", V(x)), sep] + inner_stmts)]))
+            out.append(("foreach-text-index:" + jn, [("decl", "Z", cnt, I(0)), ("foreach", "C", x, k, txt,
+                        count + j + [("print", V(k)), sep, ("print", V(x)), sep] + inner_stmts)]))
+        return out
+
+    progs = []
+    for lab, stmts in forms("a", []):
+        progs.append((lab, dict(structs=[], globals=[], funcs=[], main=stmts + [nl, ("println", ("var", "na"))], types={})))
+    # nested: the inner loop (with its own jumps) inside each outer form without jump; the outer index is observed after it
+    inner = [(l, s) for l, s in forms("b", []) if l.split(":")[1] in ("continue-2", "break-3")]
+    for ilab, istmts in inner:
+        for olab, ostmts in forms("a", istmts + [("print", ("text", [0x7C]))]):
+            if olab.split(":")[1] in ("none", "continue-2"):
+                progs.append(("nested:%s/%s" % (olab, ilab), dict(structs=[], globals=[], funcs=[], main=ostmts + [nl], types={})))
+    return progs
+
+
 def check(res, tier):
     sd = seed()
     rng = Rng(sd)
@@ -64,6 +118,12 @@ def check(res, tier):
     if quick:
         calls = calls[sd % 2::2]
     st4 = evalcorr.judge_programs(res, ddp, model, calls, [pipeline.Config(opt=2), pipeline.Config(opt=0)] if quick else cfgs, "calls", max_report=3)
+    loops = loop_programs()
+    if quick:
+        loops = loops[:40] + loops[40 + sd % 4::4]
+    st5 = evalcorr.judge_programs(res, ddp, model, [p for _, p in loops], cfgs[:1] if quick else cfgs, "loops", max_report=4)
+    for lab, _ in loops:
+        res.nontrivial("loop:" + lab)
     evalcorr.report_broken(res, broken)
     hist = Counter()
     for p in full + mini:
@@ -71,14 +131,15 @@ def check(res, tier):
     res.extra.update({"matrix_cells": nsingles, "matrix_cell_outcomes": dict(cells), "matrix_batches": len(mprogs),
                       "random_programs": len(full), "random_programs_minimal_parentheses": len(mini),
                       "configs": [c.name() for c in cfgs], "outcomes_matrix": dict(st), "outcomes_random": dict(st2),
-                      "outcomes_random_minimal": dict(st3), "call_programs": len(calls), "outcomes_calls": dict(st4),
+                      "outcomes_random_minimal": dict(st3), "call_programs": len(calls), "outcomes_calls": dict(st4), "loop_programs": len(loops), "outcomes_loops": dict(st5),
                       "input_distribution": dict(sorted(hist.items(), key=lambda kv: -kv[1])[:60])})
     res.rule = ("every admissible (operator, operand types) cell with boundary operands (64-bit extremes, 0/1/-1, Byte 0..255, "
                 "multi-byte code points, empty and short lists), and random well-typed programs (declarations, assignments to "
                 "variables / list elements / fields, all loop forms with Verlasse/Fahre fort, functions with value and Referenz "
                 "parameters, Kombinationen, Variable, conversions) printed fully parenthesised and with minimal parentheses: "
                 "stdout, exit status and Laufzeitfehler of the compiled program against the L2 evaluator; the call rows of the aliasing matrix "
-                "(value / Referenz / global / read-only parameters) at -O 0 and -O 2")
+                "(value / Referenz / global / read-only parameters) at -O 0 and -O 2; every loop form x {Fahre fort in some iterations, Verlasse, both} "
+                "observing counter, index and element in the same and in later iterations, alone and nested in every other form")
     res.assumptions += ["programs whose evaluation hits an LLVM-undefined operation (modulo 0, shift >= width, Kommazahl out of the "
                         "integer range, Buchstabe outside Unicode, negative repeat counts) are generated but not judged",
                         "LLVM, the C compiler and libc (printf %.16g, pow) are trusted"]
